@@ -10,7 +10,7 @@ PROP = {
                'explored histories only; packet-level timing inside QUIC is whatever loopback does.',
  'level_note': 'Trusts the harness fakes/model (written from the statement and the TrafficLogger interface documentation), rapid, and '
                'loopback UDP. Liveness waits (sync, teardown, ClosedError) use 30 s deadlines; expiry is reported as inconclusive, never '
-               'as a violation. The veto-racing-a-close test decides "the connection is closed" with a 4 s grace period during which the '
+               'as a violation - except a WITNESSED stall: when a wait about bytes in transit expires with bytes missing that were written before either side closed, a fresh proxied connection of the same client does a 200-byte round trip in both directions; if that completes and the old bytes are still missing, the relay lost them (violation); if the witness fails, inconclusive. The veto-racing-a-close test decides "the connection is closed" with a 4 s grace period during which the '
                'server demonstrably keeps serving new requests.',
  'rule': 'Case = fastOpen x logger x 1-2 users x 1-3 proxied connections x 1-3 segments; per connection a list of clientWrite / '
          'targetWrite / sync / client-deadline ops (SetReadDeadline or SetDeadline in the past or 3 ms ahead, cleared after a Read timed out), '
